@@ -11,12 +11,13 @@ def _sharded_catalogue(runner, stage):
     `exhaustive_complete` is reported only when every shard enumerated its part completely."""
     shards = stage.get("shards", 16)
     t_start = time.time()
-    hdir = runner.build("asan", ["C07"])
-    exe = os.path.join(hdir, "C07")
+    binary = stage.get("binary", "C07")
+    hdir = runner.build("asan", [binary])
+    exe = os.path.join(hdir, binary)
     procs = []
     for sh in range(shards):
         st = dict(stage)
-        st["binary"] = "C07"
+        st["binary"] = binary
         st["bound"] = stage["maxn"] + 10 * stage["order_mode"] + 100 * sh + 10000 * shards
         st["case_timeout"] = stage.get("case_timeout", 900)
         p = runner.spawn_worker(exe, st, "ex", runner.seed, 0, sh, 0)
@@ -66,7 +67,7 @@ def _sharded_catalogue(runner, stage):
                 import hashlib
                 import shutil
                 data = open(cur, "rb").read()
-                dest = os.path.join(runner.replay_dir, "C07-crash-%s.tape" % hashlib.sha1(data).hexdigest()[:16])
+                dest = os.path.join(runner.replay_dir, "%s-crash-%s.tape" % (binary, hashlib.sha1(data).hexdigest()[:16]))
                 shutil.copyfile(cur, dest)
                 runner.consider_crash(exe, p["st"], dest, err)
     # exhaustive only if every shard completed
@@ -89,7 +90,7 @@ def _sharded_catalogue(runner, stage):
                 pass
         runner.notes.append("bounded catalogue: only %d of %d shards enumerated their part completely (a violation stops a shard)" % (complete, shards))
     else:
-        runner.notes.append("bounded catalogue (at most %d library files, %s): all %d shards complete, %d choice sequences, %.0f s wall" % (
+        runner.notes.append(binary + ": bounded catalogue (at most %d library files, %s): all %d shards complete, %d choice sequences, %.0f s wall" % (
             stage["maxn"], "fault-first scenarios" if stage["order_mode"] == 1 else "both scenario orders", shards, evaluations, time.time() - t_start))
 
 
@@ -99,11 +100,17 @@ PLAN = {
         replays("C07"),
         custom("C07:catalogue-ex(<=2 library files)", _sharded_catalogue, maxn=2, order_mode=0, shards=8),
         tape("C07", 8000, size=300, case_timeout=900),
+        replays("C07_ext"),
+        custom("C07_ext:catalogue-ex(<=2 library files)", _sharded_catalogue, binary="C07_ext", maxn=2, order_mode=1, shards=8),
+        tape("C07_ext", 4000, size=300, case_timeout=900),
     ],
     "thorough": [
         replays("C07"),
         custom("C07:catalogue-ex(<=3 library files)", _sharded_catalogue, maxn=3, order_mode=0, shards=16),
         tape("C07", 300000, size=400, case_timeout=900),
+        replays("C07_ext"),
+        custom("C07_ext:catalogue-ex(<=3 library files)", _sharded_catalogue, binary="C07_ext", maxn=3, order_mode=1, shards=16),
+        tape("C07_ext", 120000, size=400, case_timeout=900),
     ],
     "class_floors": {
         "fault:back-edge": 0.08, "fault:units-cycle": 0.04, "fault:entity-removed": 0.04, "fault:entity-renamed": 0.04, "fault:file-missing": 0.03, "fault:not-cellml": 0.03,
@@ -126,7 +133,10 @@ CLAIM = {
             "The bounded tier enumerates EVERY scenario of a catalogue of chains (4 main import kinds x 5 unit / 7 component shapes per file x every applicable fault x file and library route x both scenario orders): "
             "quick: at most 2 library files (about 2 000 scenarios, exhaustive: true refers to this bound); thorough: at most 3 library files (about 26 000 scenarios); "
             "the random tier adds chains of up to 8 files and layered random graphs of up to 9 files with diamonds, repeated imports, unused broken imports, sub-directories, CellML 1.1 files under a permissive importer and unrelated parser errors in imported files.",
-    "note": "Trusts the harness's reference model and XML writer. A dangling local reference (unit child / variable units naming units that do not exist) is not judged. Graphs whose files import each other without an entity-level cycle are never generated (excluded by the statement). "
+    "note": "props/C07_ext.cpp (same source, C07_EXT defined; a second binary so that the saved tapes of props/C07.cpp keep their meaning) adds the dimensions found missing by the independent exploration: a parser error inside the definition of an entity "
+            "(two imports from one file, only one affected, both orders), a library entry replaced by a null model after a first resolution, components encapsulated below an import element that is itself a child of a concrete component, nested directories in which a relative href recurs "
+            "or in which files at different depths have the same text, and every resolve / flatten of the fault state made twice (the answer must not depend on the call count). "
+            "Trusts the harness's reference model and XML writer. A dangling local reference (unit child / variable units naming units that do not exist) is not judged. Graphs whose files import each other without an entity-level cycle are never generated (excluded by the statement). "
             "Known defects are probed once per process; while present their triggers are kept out of the routine scenarios by construction (counted as excluded:*) and let through in a sample (matched by known_findings.json); a known hang is never sampled (replays/C07/slow-*.tape, run by hand). "
             "Hang confirmation uses a 300 s limit on the sanitised build. Liveness beyond the limits and graphs beyond the generated sizes are not covered.",
 }
